@@ -19,7 +19,8 @@ EXTENDS Integers, FiniteSets, Sequences, TLC
 CONSTANTS MinTimeout,    \* notify.MinTimeout: a flush gets at least this long (10 s)
           RetrySlack,    \* one maximal retry back-off (1.5 x 60 s)
           SchedSlack,    \* scheduling slack of the C01 bound
-          GapBound(_)    \* upper bound of the retry gap after the k-th failed attempt
+          GapBound(_),   \* upper bound of the retry gap after the k-th failed attempt
+          RepeatLag      \* a delivery is recorded by the observer when it completes; the log entry is written this much later at most
 
 \* the alert universe of the scenarios (mirrored in harness/e2e)
 Alerts == {"A1", "A2", "A3", "A4"}
@@ -269,7 +270,7 @@ FlushBegin(ag, gk, as, tick) ==
        THEN /\ chk' = {"C06_group_of_unknown_route"}
             /\ UNCHANGED <<now, cfg, ver, sil, last, brk, fl, cancd, elig>>
      ELSE
-     /\ fl' = Put(fl, ag, [gk |-> gk, t |-> now, to |-> Timeout(gk), alerts |-> as, att |-> [i \in IntegsOf(gk) |-> NoAtt],
+     /\ fl' = Put(fl, ag, [gk |-> gk, t |-> now, tick |-> tick, to |-> Timeout(gk), alerts |-> as, att |-> [i \in IntegsOf(gk) |-> NoAtt],
                             tmust |-> TimeMuted(gk, tick) /\ TimeMuted(gk, now), tmay |-> TimeMuted(gk, tick) \/ TimeMuted(gk, now),
                             muted |-> {a \in names \cap Alerts : MutedAt(a, now)},
                             inhibited |-> {a \in names \cap Alerts : InhibitedAt(a, now)},
@@ -407,6 +408,15 @@ FlushDone(ag) ==
            THEN {"C20_gave_up_before_deadline"} ELSE {})
         \* one integration's failure never prevents the others from sending and recording
         \cup (IF \E i \in DOMAIN f.att : f.att[i].done /\ ~f.att[i].logged THEN {"C20_success_not_recorded"} ELSE {})
+        \* C04: repeats arrive on time - a group with something firing to report whose last
+        \* notification this instance knows of is older than repeat_interval (by more than the
+        \* time a delivery and its log write take) is notified again by this flush
+        \cup (IF \E i \in DOMAIN f.att :
+                   /\ accepting(i) /\ f.att[i].n = 0
+                   /\ {a \in exp(i) : Entry(f.alerts, a).status = "firing"} # {}
+                   /\ <<f.gk, i>> \in DOMAIN last
+                   /\ f.tick - last[<<f.gk, i>>].t > Opt(f.gk).ri + RepeatLag
+                THEN {"C04_repeat_not_sent_after_repeat_interval"} ELSE {})
         \* C01: a firing alert the receiver has not been told about is delivered by this flush
         \* (in a cluster a peer may have delivered it meanwhile: then this instance's log says so)
         \cup (IF \E i \in DOMAIN f.att : accepting(i) /\ newFiring(i) # {} /\ ~(newFiring(i) \subseteq knownFiring(i))
